@@ -23,8 +23,9 @@ def affine_pts(n, k):
 
 
 def enum_translation(tier, seed):
+    deep = tier == "thorough"
     for dim in (2, 3):
-        for v in affine_pts(dim, 2 if dim == 2 else 1):
+        for v in affine_pts(dim, (4 if deep else 2) if dim == 2 else (2 if deep else 1)):
             for form in ("scalars", "point", "point_scaled", "point_negative"):
                 yield (dim, v, form)
 
@@ -75,8 +76,11 @@ def case_translation(ctx, cfg):
 # ---------------------------------------------------------------------------------------------------
 
 
+ANGLES_T = ANGLES + [k * math.pi / 24 for k in range(-47, 48, 2)] + [s * math.atan2(a, b) for s in (1, -1) for a, b in ((8, 15), (15, 8), (7, 24), (24, 7), (20, 21), (12, 5))] + [1e-3, -1e-3, 3.0, -3.0, 2 * math.pi + 0.5, -7.0]
+
+
 def enum_rotation2(tier, seed):
-    for i, a in enumerate(ANGLES):
+    for i, a in enumerate(ANGLES_T if tier == "thorough" else ANGLES):
         yield (i,)
 
 
@@ -85,7 +89,7 @@ def case_rotation2(ctx, cfg):
     import geometer as G
 
     (i,) = cfg
-    a = ANGLES[i]
+    a = ANGLES_T[i]  # ANGLES is a prefix of ANGLES_T
     ctx.state(cfg)
     t, e = ctx.call(G.rotation, a)
     ctx.trace()
@@ -103,7 +107,18 @@ def case_rotation2(ctx, cfg):
     if abs(a - math.atan2(4, 3)) < 1e-15 and not proj_eq(img.array, np.array([3, 4, 1]), 1e-12):
         ctx.fail("rotation2d:pythagorean", "t*p", inputs, [3, 4, 1], img.array)
         return
-    for j, b in enumerate(ANGLES):
+    # every lattice point (finite and at infinity) goes to its rotated position
+    for p in affine_pts(2, 2):
+        for w in (1, 0):
+            if w == 0 and not any(p):
+                continue
+            img, e = ctx.call(lambda: t * G.Point(np.array([p[0], p[1], w], dtype=float)))
+            ctx.trace()
+            wv = np.array([c * p[0] - s * p[1], s * p[0] + c * p[1], w])
+            if e is not None or not proj_eq(img.array, wv, 1e-12):
+                ctx.fail("rotation2d:image-lattice", "t*p", {**inputs, "p": [p[0], p[1], w]}, wv, e if e is not None else img.array)
+                return
+    for j, b in enumerate(ANGLES_T if ctx.tier == "thorough" else ANGLES):
         r, e = ctx.call(lambda: G.rotation(a) * G.rotation(b))
         ctx.trace()
         w = G.rotation(a + b)
@@ -118,7 +133,7 @@ def case_rotation2(ctx, cfg):
 
 
 def enum_rotation3(tier, seed):
-    for ax in lattice(3, 2):
+    for ax in lattice(3, 3 if tier == "thorough" else 2):
         for form in ("point", "scaled"):
             yield (ax, form)
 
@@ -133,8 +148,8 @@ def case_rotation3(ctx, cfg):
     u = np.array(ax, dtype=float)
     u /= np.linalg.norm(u)
     # a lattice vector perpendicular to the axis
-    perp = next(np.array(w, dtype=float) for w in lattice(3, 2) if sum(a * b for a, b in zip(w, ax)) == 0)
-    angles = ANGLES if ctx.tier == "thorough" else ANGLES[::2] + ANGLES[-5:]
+    perp = next(np.array(w, dtype=float) for w in lattice(3, 3) if sum(a * b for a, b in zip(w, ax)) == 0)
+    angles = ANGLES_T[:len(ANGLES) + 8] if ctx.tier == "thorough" else ANGLES[::2] + ANGLES[-5:]
     mats = {}
     for a in angles:
         t, e = ctx.call(G.rotation, a, axis)
@@ -184,7 +199,7 @@ def case_rotation3(ctx, cfg):
 
 
 def enum_scaling(tier, seed):
-    fac = [-2, -1, 1, 2, 0.5]
+    fac = [-2, -1, 1, 2, 0.5] + ([3, -0.25, 10, 1e-3] if tier == "thorough" else [])
     for dim in (2, 3):
         for f in itertools.product(fac, repeat=dim):
             yield (dim, f)
@@ -215,9 +230,10 @@ def case_scaling(ctx, cfg):
 
 
 def enum_reflection(tier, seed):
-    for h in lattice(3, 2):
+    deep = tier == "thorough"
+    for h in lattice(3, 4 if deep else 2):
         yield (2, h)
-    for h in lattice(4, 1):
+    for h in lattice(4, 2 if deep else 1):
         yield (3, h)
 
 
@@ -312,6 +328,8 @@ def enum_from_points(tier, seed):
             continue
         yield (2, f)
     pts3 = [(x, y, z, 1) for x in (0, 1) for y in (0, 1) for z in (0, 1)] + [(2, 3, 5, 1)]
+    if tier == "thorough":
+        pts3 += [(1, -1, 2, 0), (-1, 2, 1, 3)]
     cnt = 0
     for f in itertools.combinations(pts3, 5):
         if all(X.det([list(map(F, v)) for v in q]) != 0 for q in itertools.combinations(f, 4)):
